@@ -10,6 +10,7 @@ NS_XHTML = 'http://www.w3.org/1999/xhtml'
 NS_SVG = 'http://www.w3.org/2000/svg'
 NS_MATH = 'http://www.w3.org/1998/Math/MathML'
 NS_X = 'urn:x-test'
+NS_Y = 'urn:y-test'
 
 LANGS = ['en', 'en-US', 'de', 'de-DE', 'de-Latn-DE', 'fr', 'zh-Hans-CN', '', 'ar', 'EN', 'und']
 IDS = ['d0', 'd1', 'd2', 'd3', 'd4', 'd5', 'd6', 'd7']
@@ -54,6 +55,10 @@ def _text(rng):
     return rng.choice(TEXTS) if rng.random() < 0.6 else ''
 
 
+RANGE_TYPES = ('number', 'range', 'date', 'month', 'week', 'time', 'datetime-local')
+CROSS_TYPE_VALUES = ['10', '5', '0', '2020-01', '2020-W10', '08:00', '2020-01-01', '2020', '12:30', '2020-12', '7', '2020-01-01T00:00']
+
+
 def _input(rng):
     # radios / checkboxes / submit buttons drive :indeterminate, :default and :checked, so they are over-represented
     t = rng.choice(INPUT_TYPES) if rng.random() < 0.45 else rng.choice(
@@ -72,6 +77,11 @@ def _input(rng):
             extra.append(('checked', ''))
         if rng.random() < 0.2:
             extra.append(('indeterminate', ''))
+    elif tl in RANGE_TYPES and rng.random() < 0.25:
+        # the same strings under different input types: a value syntax is only meaningful together with its type
+        for k in ('min', 'max', 'value'):
+            if rng.random() < 0.7:
+                extra.append((k, rng.choice(CROSS_TYPE_VALUES)))
     elif tl in ('number', 'range'):
         for k in ('min', 'max', 'value'):
             if rng.random() < 0.6:
@@ -113,11 +123,28 @@ def _radio_block(rng):
     return ''.join(out)
 
 
+def _range_block(rng):
+    # a handful of range-type inputs of DIFFERENT types over a tiny set of value strings: what a string means depends
+    # on the type it is read under
+    vals = rng.sample(CROSS_TYPE_VALUES, 3)
+    out = []
+    for t in rng.sample(RANGE_TYPES, rng.randint(2, 4)):
+        extra = [('type', t)]
+        for k in ('min', 'max', 'value'):
+            if rng.random() < 0.75:
+                extra.append((k, rng.choice(vals)))
+        out.append(f'<input{_attrs(rng, extra)}>')
+    return ''.join(out)
+
+
 def _form(rng, depth, budget):
     parts = []
     n = rng.randint(1, 5)
     if rng.random() < 0.3:
         parts.append(_radio_block(rng))
+        budget[0] -= 2
+    if rng.random() < 0.2:
+        parts.append(_range_block(rng))
         budget[0] -= 2
     for _ in range(n):
         if budget[0] <= 0:
@@ -300,6 +327,10 @@ def gen_markup_xml(rng, size):
     budget = [size]
     xhtml = rng.random() < 0.5
     nsdecl = f' xmlns:x="{NS_X}" xmlns:h="{NS_XHTML}" xmlns:s="{NS_SVG}"'
+    if rng.random() < 0.25:
+        # the same prefix bound to another namespace: a prefix means nothing without the document's declarations
+        nsdecl = f' xmlns:x="{NS_Y}" xmlns:h="{NS_XHTML}" xmlns:s="{NS_SVG}"' if rng.random() < 0.7 else \
+            f' xmlns:x="{NS_X}" xmlns:h="{NS_SVG}" xmlns:s="{NS_XHTML}"'
     if xhtml:
         body = ''.join(_xml_node(rng, 1, budget) for _ in range(rng.randint(1, 5)))
         head = '<head><meta http-equiv="content-language" content="%s"/></head>' % rng.choice(['en', 'de', ''])
@@ -402,7 +433,9 @@ def build_doc(spec):
 EDIT_ATTRS = [('class', 'a'), ('class', 'b c'), ('class', 'x'), ('id', 'd1'), ('id', 'zz'), ('lang', 'en'), ('lang', 'de'),
               ('lang', ''), ('xml:lang', 'en'), ('dir', 'rtl'), ('dir', 'ltr'), ('dir', 'auto'), ('checked', ''),
               ('disabled', ''), ('required', ''), ('selected', ''), ('open', ''), ('type', 'radio'), ('type', 'checkbox'),
-              ('type', 'text'), ('type', 'submit'), ('type', 'number'), ('name', 'r1'), ('name', 'r2'), ('href', '#e'),
+              ('type', 'text'), ('type', 'submit'), ('type', 'number'), ('type', 'week'), ('type', 'time'), ('type', 'month'),
+              ('type', 'range'), ('type', 'date'), ('value', '10'), ('value', '2020-01'), ('min', '0'), ('max', '2020-W10'),
+              ('name', 'r1'), ('name', 'r2'), ('href', '#e'),
               ('value', '3'), ('value', '99'), ('min', '5'), ('max', '1'), ('content', 'fr'), ('http-equiv', 'content-language'),
               ('placeholder', 'p'), ('k', '1'), ('K', '2'), ('multiple', ''), ('readonly', ''), ('contenteditable', 'true')]
 EDIT_TAGS = [('p', {}), ('p', {'class': 'a'}), ('span', {'lang': 'de'}), ('li', {'class': 'c'}), ('input', {'type': 'radio', 'name': 'r1', 'checked': ''}),
@@ -874,6 +907,8 @@ XML_STATEFUL_POOL = [
     ('h|*:checked, x|*', {'x': NS_X, 'h': NS_XHTML}), ('x|item:lang(en), :default', {'x': NS_X}),
     (':read-write, x|p', {'x': NS_X}), ('*|item, :checked', None), ('|item, :link', {'x': NS_X}),
     (':checked + x|item, :checked ~ x|*', {'x': NS_X}), (':root x|item', {'x': NS_X}),
+    ('[x|k]', {'x': NS_Y}), ('[n|k]', {'n': NS_X}), ('[n|k], n|item', {'n': NS_Y}), ('[*|k]', None), ('[x|k="1"]', {'x': NS_X}),
+    ('x|item, x|row', {'x': NS_Y}), (':not([x|k]) > [x|k]', {'x': NS_X}), ('[|k], [k]', None),
 ]
 
 
@@ -906,9 +941,25 @@ FEATURE_POOLS = {
 }
 
 
-def markup_features(markup):
+# namespaced attribute selectors: entries are (pattern, namespace map)
+NSATTR_POOL = [('[x|k]', {'x': NS_X}), ('[x|k]', {'x': NS_Y}), ('[n|k="1"]', {'n': NS_X}), ('[n|k]', {'n': NS_Y}), ('[*|k]', None),
+               (':not([x|k])', {'x': NS_X}), ('[x|k], x|item', {'x': NS_Y}), ('* > [x|k]', {'x': NS_X})]
+
+
+def feature_key(rng, feat):
+    """A key spec (pattern + namespace map) from the pool aligned with a document feature."""
+    if feat == 'nsattr':
+        pat, ns = rng.choice(NSATTR_POOL)
+    else:
+        pat, ns = rng.choice(FEATURE_POOLS[feat]), None
+    return {'pattern': pat, 'ns': ns, 'custom': None, 'flags': 0, 'uses_scope': False, 'special': 0}
+
+
+def markup_features(markup, nsattr=False):
     m = markup.lower()
     out = []
+    if nsattr and 'x:k=' in m:
+        out.append('nsattr')
     if 'type="radio"' in m:
         out.append('radio')
     if 'type="submit"' in m:
@@ -934,6 +985,8 @@ _VARIANT_SWAPS = [
     ('lang="en"', 'lang="de"'), ('lang="de"', 'lang="en"'), ('lang="fr"', 'lang="en"'), ('lang="en-US"', 'lang="de-DE"'),
     ('dir="rtl"', 'dir="ltr"'), ('dir="ltr"', 'dir="rtl"'), (' checked=""', ' data-c=""'), ('type="submit"', 'type="button"'),
     ('name="r1"', 'name="r2"'), ('value="5"', 'value="9"'), ('min="0"', 'min="7"'),
+    (f'xmlns:x="{NS_X}"', f'xmlns:x="{NS_Y}"'), (f'xmlns:x="{NS_Y}"', f'xmlns:x="{NS_X}"'),
+    ('type="number"', 'type="week"'), ('type="week"', 'type="time"'), ('type="date"', 'type="month"'),
 ]
 
 
